@@ -56,6 +56,26 @@ def listing_session(rng, dirpath, n_entries, style):
         reqs += [{"op": "OPEN_DIR", "path": dirpath}, {"op": "READ_DIR"}, {"op": "OPEN_DIR", "path": dirpath}, {"op": "READ_DIR"},
                  {"op": "OPEN_DIR", "path": "/t/target_file"}, {"op": "OPEN_DIR", "path": "/t/target_file"}, {"op": "OPEN_DIR", "path": dirpath},
                  {"op": "READ_DIR_ENTRY"}]
+    elif style == "interleaved":
+        # other commands between the entries (open / read / close a file, stat, dir-size): the listing goes on undisturbed
+        fpath = "/t/target_file"
+        opened = False
+        for k in range(n_entries + 2):
+            reqs.append({"op": rng.choice(LIST_OPS[:2])})
+            r = rng.random()
+            if r < 0.25:
+                reqs.append({"op": "OPEN_FILE", "path": fpath})
+                opened = True
+            elif r < 0.4 and opened:
+                reqs.append({"op": "READ_FILE", "limit": 16, "off": 0})
+            elif r < 0.6:
+                reqs.append({"op": "OPEN_FILE", "path": "/CLOSEFILE"})
+                opened = False
+            elif r < 0.75:
+                reqs.append({"op": "STAT_FILE", "path": rng.choice([fpath, dirpath, "/nope"])})
+            elif r < 0.85:
+                reqs.append({"op": "GET_DIR_SIZE", "path": dirpath})
+        reqs += [{"op": "OPEN_FILE", "path": fpath}, {"op": "OPEN_DIR", "path": dirpath}, {"op": "OPEN_FILE", "path": "/CLOSEFILE"}, {"op": "READ_DIR"}]
     else:   # mixed interleaving of the three commands
         k = 0
         while k < n_entries + 3:
@@ -89,8 +109,8 @@ def run(tier, seed, replay=None):
             nodes = shape_world(rng, shape, t0)
             n = len([x for x in nodes if len(x["p"]) == 2 and x["p"][0] == "dir"])
             conns = []
-            for i, style in enumerate(["entries", "v2", "bulk", "mixed", "mixed", "reopen", "reopen"]):
-                if isinstance(shape, int) and shape > 100 and (style == "mixed" or (style == "reopen" and i == 6) or (style == "v2" and not full)):
+            for i, style in enumerate(["entries", "v2", "bulk", "mixed", "mixed", "reopen", "reopen", "interleaved"]):
+                if isinstance(shape, int) and shape > 100 and (style in ("mixed", "interleaved") or (style == "reopen" and i == 6) or (style == "v2" and not full)):
                     continue
                 conns.append({"id": 1 + i, "reqs": listing_session(rng, "/dir", n, style)})
             # open-dir on everything, stat and dir-size for every node of the tree
@@ -116,7 +136,8 @@ def run(tier, seed, replay=None):
             worlds.append({"name": "nested%d" % i, "aw": False, "nodes": nodes, "conns": conns, "schedule": rng.choice(["seq", "rr"])})
         srv.run_and_validate(ctx, worlds, rep)
         rep.cov["rule"] = ("directory shapes {empty, one entry, every kind incl. links to file/dir/nothing, 255-byte and odd names, "
-                           "41 and hundreds of entries} x the three listing commands and their interleavings; stat, open-dir and "
+                           "41 and hundreds of entries} x the three listing commands and their interleavings, also with file open / read / close, "
+                           "stat and dir-size requests between the entries; stat, open-dir and "
                            "dir-size for every node; distinct_nontrivial = worlds accepted")
         rep.cov["distinct_nontrivial"] = rep.cov["traces_validated_against_impl"]
         rep.cov["samples"] = [{"world": w["name"], "first": w["conns"][0]["reqs"][:3]} for w in worlds[:3]]
